@@ -50,9 +50,9 @@ func (s Src) Key() string {
 // An Edit is one letter of the alphabet.
 type Edit struct {
 	Name string
-	Src  Src                  // resulting source state
-	Pre  func(repo string)    // optional disk action before the build (e.g. rm -rf plz-out)
-	Kind string               // edit type, for coverage accounting
+	Src  Src               // resulting source state
+	Pre  func(repo string) // optional disk action before the build (e.g. rm -rf plz-out)
+	Kind string            // edit type, for coverage accounting
 }
 
 // Target describes what a requested target must have produced.
@@ -99,12 +99,12 @@ type Engine struct {
 
 // State is a node of the search.
 type State struct {
-	ID     int
-	Src    Src
-	Snap   string // directory holding the snapshot (repo/ + cache/)
-	Hist   []string
-	Depth  int
-	Extra  any // oracle bookkeeping (e.g. signature at last run)
+	ID    int
+	Src   Src
+	Snap  string // directory holding the snapshot (repo/ + cache/)
+	Hist  []string
+	Depth int
+	Extra any // oracle bookkeeping (e.g. signature at last run)
 }
 
 func NewEngine(plz, root string, fam Family) *Engine {
@@ -198,12 +198,16 @@ func Materialise(f Family, s Src, repo string, extraConfig string) {
 }
 
 // runPlz runs plz in dir/repo and observes.
-func (e *Engine) runPlz(dir string, s Src) *Obs {
+func (e *Engine) runPlz(dir string, s Src) *Obs { return e.RunWith(e.Plz, dir, s, nil) }
+
+// RunWith runs the given plz binary (e.g. one built with the file-system seam) with extra environment in dir/repo.
+func (e *Engine) RunWith(bin, dir string, s Src, extraEnv []string) *Obs {
 	repo := filepath.Join(dir, "repo")
 	logf := filepath.Join(dir, "actions.log")
 	os.Remove(logf)
 	args, env := e.Fam.Args(s)
-	cmd := exec.Command(e.Plz, args...)
+	env = append(append([]string{}, env...), extraEnv...)
+	cmd := exec.Command(bin, args...)
 	cmd.Dir = repo
 	cmd.Env = append([]string{"PATH=/usr/local/bin:/usr/bin:/bin", "HOME=" + dir, "LANG=C", "GOMAXPROCS=2", "GOGC=off"}, env...)
 	var out bytes.Buffer
@@ -341,6 +345,9 @@ func StateKey(dir string, s Src) string {
 	}
 	return hex.EncodeToString(h.Sum(nil)[:16])
 }
+
+// CopyTree copies a snapshot (cp -a: hard links, xattrs, times preserved).
+func CopyTree(from, to string) { cpa(from, to) }
 
 func cpa(from, to string) {
 	os.RemoveAll(to)
